@@ -130,7 +130,7 @@ def pr(cmds,sep=" "):
         elif k=='o': out.append("o%d"%c[1])
         elif k=='orel': out.append(">" if c[1]>0 else "<")
         elif k=='vrel': out.append(")" if c[1]>0 else "(")
-        elif k=='voice': out.append("@%d"%c[1])
+        elif k=='voice': out.append("@%d;"%c[1])
         elif k=='v': out.append("v%d"%c[1])
         elif k=='q': out.append("q%d"%c[1])
         elif k=='t': out.append("t%d"%c[1])
